@@ -304,7 +304,7 @@ func (P *Program) VerifyFunc(fn *ssa.Function) (res *FuncResult) {
 	_ = returns
 	if con != nil {
 		for _, a := range con.Asserts {
-			if strings.HasPrefix(a.Where, "call ") && !c.atCallSeen[a] && a.Effect == nil {
+			if strings.HasPrefix(a.Where, "call ") && !c.atCallSeen[a] && a.Effect == nil && !a.Maybe {
 				c.oblige("assert", fmt.Sprintf("%s#at-%s.reached[%s]", name, strings.ReplaceAll(a.Where, " ", "-"), lbl(a.Clause)), a.Clause.Label, a.Clause.Props, "false", fn.Pos(), "the call site named by the at-clause exists: "+a.Where)
 			}
 		}
